@@ -553,8 +553,15 @@ class CommonRstWrapper(Module):
         from litex.soc.interconnect import stream
         self.clock_domains.cd_a = ClockDomain("a")
         self.clock_domains.cd_b = ClockDomain("b")
-        self.submodules.cdc = cdc = stream.ClockDomainCrossing(layout, "a", "b", depth=depth, buffered=buffered, with_common_rst=True)
+        cdc = stream.ClockDomainCrossing(layout, "a", "b", depth=depth, buffered=buffered, with_common_rst=True)
+        # the crossing names its two internal domains after its DUID ("from<n>", "to<n>"), which differs from one elaboration to the
+        # next; give them fixed names so that a recorded edge schedule can be replayed on a fresh elaboration
+        names = [cd.name for cd in cdc._fragment.clock_domains]
+        ren = {n: ("from_cdc" if n.startswith("from") else "to_cdc") for n in names if n.startswith(("from", "to"))}
+        if sorted(ren.values()) != ["from_cdc", "to_cdc"]:
+            raise MachineryError(f"ClockDomainCrossing(with_common_rst): expected one from*/to* domain pair, found {names}")
         self.sink, self.source = cdc.sink, cdc.source
+        self.submodules.cdc = ClockDomainsRenamer(ren)(cdc)
 
 
 class CdcStreamResetHarness(CdcStreamHarness):
@@ -1046,7 +1053,7 @@ def run_config(cfg, seed, tier):
     name = cfg[0]
     mk = REGISTRY[name][1]
     H = mk()
-    X = Explorer(H, seed=seed)
+    X = Explorer(H, seed=seed, max_viol_rules=2)
     structural = H.lint()
     out = X.run().as_dict()
     out["cover"]["crossing_discipline_findings"] = len(structural)
@@ -1064,8 +1071,9 @@ def run_config(cfg, seed, tier):
     for label, mks, rule in SENSITIVITY.get(name, ()):
         r = Explorer(mks(), max_viol_rules=1, seed=seed).run()
         hit = [v for v in r.violations if v["rule"] == rule]
+        rep = _replay(mks, rule, hit[0]["trace"], None)["reproduced"] if hit else None
         out["cover"].setdefault("sensitivity_not_a_verdict", []).append(dict(
-            premise_violated=label, expected_rule=rule, found=bool(hit), states=r.states,
+            premise_violated=label, expected_rule=rule, found=bool(hit), reproduced_on_litex_evaluator=rep, states=r.states,
             shortest_trace_steps=len(hit[0]["trace"]) if hit else None, rules_seen=sorted(v["rule"] for v in r.violations)))
     return out
 
